@@ -23,7 +23,7 @@ func init() {
 		Assumptions: []string{"timestamps lie inside a span shorter than every table's retention (nothing expires)", "aggregates over an empty set and divisions by zero are don't-care", "arrays are not generated here (see C16)"},
 		Cases: func(tier string) int {
 			if tier == "quick" {
-				return 40
+				return 120
 			}
 			return 1500
 		},
